@@ -23,7 +23,7 @@ def renderFrame : Frame → String
   | .webTransport s => s!"wt({s})"
 
 def renderSErr : SettingsErr → String
-  | .malformed => "malformed" | .invalidId id => s!"invalid({id})"
+  | .malformed => "malformed" | .invalidId id => s!"invalid({id})" | .invalidValue id v => s!"invalid_value({id},{v})"
   | .repeated id => s!"repeated({id})" | .exceeded => "exceeded"
 
 def renderErr : FrameErr → String
